@@ -195,9 +195,12 @@ theorem C11_schema (dt : Rnc.Datatypes) (acc : Rnc.Accepts dt) (r : Response) (h
 /-
   FULL STATEMENT (not proved here):
 
-    theorem C11_roundtrip (r : Response) (h : WriterDomain r) (h2 : 2 ≤ r.bundles.length) :
+    theorem C11_roundtrip (r : Response) (h : WriterDomain r) :
         ∃ text r', skrToXml r = .ok text ∧ responseFromXml text = .ok r' ∧ r' ≈ r
-      where r' ≈ r: equal up to the order of the set-valued fields (keys, signatures, algorithms)
+      where r' ≈ r: equal up to the order of the set-valued fields (keys, signatures, algorithms).
+    (`WriterDomain` includes `bundlesSorted`: since /repo e8d5886 the loader sorts response bundles by
+    (expiration, inception, id), as it sorts request bundles — the signer's output is in that order.
+    Before /repo 84feffe the statement needed `2 ≤ r.bundles.length`: F12.)
 
   `responseFromXml` is package D's model of the repository's reader (lean/Kskm/XmlGlue.lean:
   regular-expression tag matcher, `_find_end_of_element`, `_store_element`, the dict → data-class glue).
